@@ -23,6 +23,7 @@ import Golib.Proof.C02Refine
 import Golib.Proof.C02Cmp
 import Golib.Proof.C02Walk
 import Golib.Proof.C02Seq
+import Golib.Proof.C02PtrRefine
 import Golib.Gen.FactsC02
 
 namespace Golib.C02
@@ -436,5 +437,132 @@ example :
     ((SL.run cfgEx SL.zero [.set 5 50 (1 <<< 30), .set 3 30 0, .clear, .set 8 80 0, .set 2 20 0]).bind
       fun p => p.1.pull2 cfgEx 1) = some ([(2, 20)], [(2, 20), (8, 80)]) := by
   refine ⟨by decide, by decide, by decide⟩
+
+/-! ### the pointer-level model (`Golib/Model/C02Ptr.lean`) refines the levels-as-lists model
+
+`PSL` is the heap as the code builds it (nodes with `next []*SkipNode` towers addressed by ids,
+pointer reads and writes in the coded order, a Go panic = `none`, inner loops with fuel
+`nodes.size + 1`).  `Abs p s` (`Golib/Proof/C02PtrAbs.lean`): there is a key-to-node map `f`
+such that for every level `i` following `next[i]` from the head visits exactly the nodes
+`f k`, `k ∈ s.lv[i]`, in this order, node `f k` carries key `k` and (on level 0) the value the
+list model stores for `k`, and the chain ends with nil; `level`, `len`, `rand != nil`, and
+"`head.next` is the nil slice" agree. -/
+
+/-- The pointer model refines the levels-as-lists model, for every weak-order comparator:
+(a) the zero value and `Init()` states are related; (b) one call from related, reachable
+states: neither model panics, they give the same output, and the successors are related (in
+particular whenever the list model answers the pointer model gives that answer);
+(c) whole runs commute with the same outputs — hence, with `c02_refines_weak`, the pointer
+model refines the sorted-map specification `OMap.runW`; (d) what `Abs` means for the computed
+dump: `absLv` (keys along every level chain) is `lv`, the level-0 `(key, val)` pairs are the
+abstract map, no level chain repeats a node (no cycle; so the fuel `nodes.size + 1` of the
+loops suffices), and a node on the level-`i` chain has a tower higher than `i`. -/
+theorem c02_pointer_refines_levels (cfg : Cfg K V) (hc : WeakCmp cfg.cmp) (hf : cfg.fixed = true) :
+    (Abs (PSL.zero : PSL K V) (SL.zero : SL K V) ∧ Abs (PSL.init : PSL K V) (SL.init : SL K V)) ∧
+    (∀ (p : PSL K V) (s : SL K V) (op : Op K V), Abs p s → Good cfg s →
+      (p.step cfg op = none ↔ s.step cfg op = none) ∧
+      (∀ s' out, s.step cfg op = some (s', out) → ∃ p', p.step cfg op = some (p', out) ∧ Abs p' s') ∧
+      ∃ p' s' out, p.step cfg op = some (p', out) ∧ s.step cfg op = some (s', out) ∧ Abs p' s' ∧
+        Good cfg s') ∧
+    (∀ (p : PSL K V) (s : SL K V) (ops : List (Op K V)), Abs p s → Good cfg s →
+      ∃ p' s' outs, PSL.run cfg p ops = some (p', outs) ∧ SL.run cfg s ops = some (s', outs) ∧
+        Abs p' s' ∧ Good cfg s' ∧ OMap.runW cfg (toMap s) ops = (toMap s', outs)) ∧
+    (∀ (p : PSL K V) (s : SL K V), Abs p s → Good cfg s →
+      p.absLv = s.lv ∧ p.absVals = toMap s ∧ p.level = s.level ∧ p.len = s.len ∧
+      (p.head = none ↔ s.lv = []) ∧
+      ∀ i l, s.lv[i]? = some l →
+        (p.chain i).Nodup ∧ (p.chain i).filterMap p.keyOf = l ∧ (p.chain i).length ≤ p.nodes.size ∧
+        ∀ id ∈ p.chain i, ∃ nd, p.nodes[id]? = some nd ∧ i < nd.next.size) := by
+  refine ⟨⟨abs_zero, abs_init⟩, ?_, ?_, ?_⟩
+  · intro p s op hab hg
+    obtain ⟨p', s', out, h1, h2, h3, h4⟩ := step_ptr_total cfg hc hf hab hg op
+    refine ⟨by rw [h1, h2]; simp, fun s'' out' h => step_ptr cfg hc hf hab hg op h, p', s', out, h1, h2, h3, h4⟩
+  · intro p s ops hab hg
+    obtain ⟨p', s', outs, h1, h2, h3, h4⟩ := run_ptr cfg hc hf ops hab hg
+    obtain ⟨s'', outs', g1, _, g3⟩ := run_sim_weak cfg hc hf ops hg
+    rw [h2] at g1; cases g1
+    exact ⟨p', s', outs, h1, h2, h3, h4, g3⟩
+  · intro p s hab hg
+    exact abs_content cfg hc hab hg
+
+/-- The pointer model from its two starting points refines the weak-order sorted-map
+specification directly: no call panics and the outputs are those of `OMap.runW` from the empty map. -/
+theorem c02_pointer_refines_map (cfg : Cfg K V) (hc : WeakCmp cfg.cmp) (hf : cfg.fixed = true)
+    (ops : List (Op K V)) :
+    (∃ p' outs, PSL.run cfg (PSL.init : PSL K V) ops = some (p', outs) ∧
+      (OMap.runW cfg [] ops).2 = outs ∧ (OMap.runW cfg [] ops).1 = p'.absVals) ∧
+    (cfg.lazy = true → ∃ p' outs, PSL.run cfg (PSL.zero : PSL K V) ops = some (p', outs) ∧
+      (OMap.runW cfg [] ops).2 = outs ∧ (OMap.runW cfg [] ops).1 = p'.absVals) := by
+  constructor
+  · have hg : Good cfg (SL.init : SL K V) := Or.inl (Inv.init cfg.cmp)
+    obtain ⟨p', s', outs, h1, h2, h3, h4⟩ := run_ptr cfg hc hf ops abs_init hg
+    obtain ⟨s'', outs', g1, _, g3⟩ := run_sim_weak cfg hc hf ops hg
+    rw [h2] at g1; cases g1
+    rw [toMap_init] at g3
+    exact ⟨p', outs, h1, by rw [g3], by rw [g3, (abs_content cfg hc h3 h4).2.1]⟩
+  · intro hl
+    have hg : Good cfg (SL.zero : SL K V) := Or.inr ⟨hl, rfl⟩
+    obtain ⟨p', s', outs, h1, h2, h3, h4⟩ := run_ptr cfg hc hf ops abs_zero hg
+    obtain ⟨s'', outs', g1, _, g3⟩ := run_sim_weak cfg hc hf ops hg
+    rw [h2] at g1; cases g1
+    rw [toMap_zero] at g3
+    exact ⟨p', outs, h1, by rw [g3], by rw [g3, (abs_content cfg hc h3 h4).2.1]⟩
+
+/-- Tower heights on the heap: along every run from the zero value or an `Init()` state (and from
+every state related by `AbsH`), the pointer model keeps `AbsH` = `Abs` plus "the node of a live
+key has `len(next)` = the number of levels its key is linked in"; for the computed dump this
+says: a node on the level-0 chain is on the level-`i` chain exactly for `i < len(next)`
+(its tower is linked in exactly the levels `0 … len(next)-1`), and `len(next) ≤ 32`. -/
+theorem c02_pointer_heights (cfg : Cfg K V) (hc : WeakCmp cfg.cmp) (hf : cfg.fixed = true) :
+    AbsH (PSL.zero : PSL K V) (SL.zero : SL K V) ∧ AbsH (PSL.init : PSL K V) (SL.init : SL K V) ∧
+    (∀ (p : PSL K V) (s : SL K V) (ops : List (Op K V)), AbsH p s → Good cfg s →
+      ∃ p' s' outs, PSL.run cfg p ops = some (p', outs) ∧ SL.run cfg s ops = some (s', outs) ∧
+        AbsH p' s' ∧ Good cfg s') ∧
+    (∀ (p : PSL K V) (s : SL K V), AbsH p s → Good cfg s →
+      Abs p s ∧ ∀ id ∈ p.chain 0, ∃ nd, p.nodes[id]? = some nd ∧ nd.next.size ≤ 32 ∧
+        ∀ i, i < 32 → (id ∈ p.chain i ↔ i < nd.next.size)) := by
+  refine ⟨absH_zero, absH_init, fun p s ops hab hg => run_ptr_h cfg hc hf ops hab hg, ?_⟩
+  intro p s hab hg
+  refine ⟨hab.abs, ?_⟩
+  rcases hg with hi | ⟨_, rfl⟩
+  · exact absH_content cfg hc hab hi
+  · obtain ⟨f, ha, _⟩ := hab
+    have hh : p.head = none := ha.headNone.mpr rfl
+    intro id hid
+    simp [PSL.chain, PSL.nextOf, hh, PSL.chainFrom] at hid
+
+/-- The two loop forms of the enumerations agree: the `cur := &s.head; for cur.next[0] != nil`
+loop of `SkipList.Range` and the `for e := s.head.next[0]; e != nil; e = e.next[0]` loop of
+`SkipListWithCmp.Range` / both `All` give what the list model's `range` gives, on every reachable
+state and for every stopping callback — namely the first `stop` bindings of the abstract map. -/
+theorem c02_range_loop_forms (cfg : Cfg K V) (hc : WeakCmp cfg.cmp) (hf : cfg.fixed = true)
+    (p : PSL K V) (s : SL K V) (hab : Abs p s) (hg : Good cfg s) (stop : Nat) :
+    p.rangeCur cfg stop = s.range cfg stop ∧ p.rangeE cfg stop = s.range cfg stop ∧
+    s.range cfg stop = some (stopAfter stop (toMap s)) := by
+  have hr := range_eq_weak cfg hc hf hg stop
+  obtain ⟨f, ha⟩ := hab
+  obtain ⟨h1, h2⟩ := ha.range_sim (hg.rdOk hc) cfg stop hr
+  exact ⟨by rw [h1, hr], by rw [h2, hr], hr⟩
+
+/-- A small run on the heap: three inserts with towers 2, 3, 1, a replacing `Set`, the removal of
+the tallest tower (the level shrinks, node 1 stays as garbage with `next = nil`), one more insert. -/
+def opsPtrEx : List (Op Int Int) :=
+  [.set 5 50 (1 <<< 30), .set 3 30 (1 <<< 29), .set 8 80 0, .set 5 51 0, .remove 3, .set 4 40 0]
+
+/-- On that run the keys along the pointer chains are the levels of the list model, the
+level-0 chain of node ids is `[3, 0, 2]`, and the removed node 1 has lost its tower. -/
+example :
+    ((PSL.run cfgEx PSL.zero opsPtrEx).map fun r => (r.1.absLv.take 3, r.1.chain 0, r.1.chain 1)) =
+      some ([[4, 5, 8], [5], []], [3, 0, 2], [0]) ∧
+    ((PSL.run cfgEx PSL.zero opsPtrEx).map fun r => (r.1.level, r.1.len, r.1.absVals)) =
+      some (2, 3, [(4, 40), (5, 51), (8, 80)]) ∧
+    ((PSL.run cfgEx PSL.zero opsPtrEx).map fun r => r.1.nodes.toList.map (·.next.size)) = some [2, 0, 1, 1] ∧
+    ((SL.run cfgEx SL.zero opsPtrEx).map fun r => (r.1.lv.take 3, r.1.level, r.1.len, toMap r.1)) =
+      some ([[4, 5, 8], [5], []], 2, 3, [(4, 40), (5, 51), (8, 80)]) := by
+  refine ⟨by decide, by decide, by decide, by decide⟩
+
+example : Abs (PSL.zero : PSL Int Int) (SL.zero : SL Int Int) ∧ AbsH (PSL.zero : PSL Int Int) (SL.zero : SL Int Int) ∧
+    Good cfgEx (SL.zero : SL Int Int) ∧ WeakCmp cfgEx.cmp ∧ cfgEx.fixed = true :=
+  ⟨abs_zero, absH_zero, Or.inr ⟨rfl, rfl⟩, cmpIntEx_total.toWeak, rfl⟩
 
 end Golib.C02
